@@ -9,7 +9,7 @@ import itertools
 
 import z3
 
-from .vals import (V, IntV, BoolV, NoneV, NONE, ConstV, TupV, SeqV, ListV, PyListV, RefV, UnionV, OpaqueV,
+from .vals import (USort, V, IntV, BoolV, NoneV, NONE, ConstV, TupV, SeqV, ListV, PyListV, RefV, UnionV, OpaqueV,
                    FuncV, Unsupported, IntSeq, z3_true, z3_false)
 
 _fresh = itertools.count()
@@ -254,6 +254,8 @@ def arith(op, a, b):
                 terms = [(1 - 2 * bit_of(x, i)) * z3.IntVal(2 ** i) for i in range(cy.bit_length()) if cy >> i & 1]
                 return IntV(x + (z3.Sum(terms) if terms else z3.IntVal(0)))
         raise Unsupported('int operator %s' % T.__name__)
+    if T is ast.Add and (isinstance(a, SeqV) or isinstance(b, SeqV)):
+        a, b = as_seq(a), as_seq(b)
     if isinstance(a, SeqV) and isinstance(b, SeqV) and T is ast.Add:
         return SeqV(z3.Concat(a.t, b.t), a.kind)
     if isinstance(a, SeqV) and is_intlike(b) and T is ast.Mult:
@@ -299,6 +301,16 @@ def seq_repeat(a, n):
     return SeqV(r, a.kind)
 
 
+def as_seq(v):
+    """a fixed-length list of ints as a z3 sequence"""
+    if isinstance(v, (PyListV, TupV)) and all(is_intlike(i) for i in v.items):
+        if not v.items:
+            return SeqV(z3.Empty(IntSeq), 'list')
+        us = [z3.Unit(to_int(i)) for i in v.items]
+        return SeqV(us[0] if len(us) == 1 else z3.Concat(*us), 'list' if isinstance(v, PyListV) else 'tuple')
+    return v
+
+
 def same_const(a, b):
     try:
         return a.py == b.py and type(a.py) == type(b.py) or (a.py == b.py)
@@ -319,6 +331,8 @@ def equal(a, b):
         return to_int(a) == to_int(b)
     if isinstance(a, NoneV) or isinstance(b, NoneV):
         return z3.BoolVal(isinstance(a, NoneV) and isinstance(b, NoneV))
+    if isinstance(a, SeqV) and isinstance(b, PyListV) or isinstance(b, SeqV) and isinstance(a, PyListV):
+        a, b = as_seq(a), as_seq(b)
     if isinstance(a, SeqV) and isinstance(b, SeqV):
         ka = 'bytes' if a.kind == 'bytearray' else a.kind
         kb = 'bytes' if b.kind == 'bytearray' else b.kind
@@ -351,6 +365,8 @@ def equal(a, b):
         return a.t == b.t
     if isinstance(a, OpaqueV) and isinstance(b, OpaqueV):
         return a.t == b.t
+    if isinstance(a, OpaqueV) or isinstance(b, OpaqueV):
+        return fresh('unknown_eq', 'Bool')
     if isinstance(a, (SeqV, TupV, PyListV)) and (is_intlike(b) or isinstance(b, ConstV)):
         return z3.BoolVal(False)
     if isinstance(b, (SeqV, TupV, PyListV)) and (is_intlike(a) or isinstance(a, ConstV)):
@@ -603,6 +619,8 @@ class PureEval(object):
         raise Unsupported('slice of %r' % (b,))
 
     def index_of(self, b, i):
+        if isinstance(b, OpaqueV):
+            return OpaqueV(fresh('absent_item', USort), 'item of unknown')
         if isinstance(b, SeqV):
             return seq_index(b, to_int(i))
         if isinstance(b, (TupV, PyListV)):
@@ -777,6 +795,24 @@ class PureEval(object):
         if key in self.ns:
             return self.ns[key]
         raise Unsupported('%s is not available here' % key)
+
+    def _slice_bound(self, n, which):
+        x = self.ev(n.args[0])
+        ln = to_int(self.ev(n.args[1]))
+
+        def one(v):
+            t = None if isinstance(v, NoneV) else to_int(v)
+            b, e = clamp_slice(t if which == 0 else None, t if which == 1 else None, ln)
+            return IntV(b if which == 0 else e)
+        return pmap(one, x)
+
+    def fn_slice_start(self, n):
+        """slice_start(start, n) == slice(start, None).indices(n)[0]  (start may be None)"""
+        return self._slice_bound(n, 0)
+
+    def fn_slice_stop(self, n):
+        """slice_stop(stop, n) == slice(None, stop).indices(n)[1]"""
+        return self._slice_bound(n, 1)
 
     def fn_entry(self, n):
         key = 'entry(%s)' % ast.unparse(n.args[0])
